@@ -155,8 +155,8 @@ def expect_dyn(t, n, vec_size):
     e['nmc_required'] = int(n == 0 or t_tr(t) or t_nothrow_move_ctor(t))
     e['nma_required'] = int(n == 0 or t_tr(t) or t_nothrow_move(t))
     e['nsw_required'] = int(n == 0 or (t_nothrow_move_ctor(t) and t_nothrow_swap(t)))
-    # the object holds two size words and either a pointer or the N element slots, whichever is larger
-    e['sizeofSV_min'] = 2 * 4 + max(PTR, n * s)
+    # the object holds what amc::vector<T> holds besides its pointer, and either a pointer or the N element slots, whichever is larger
+    e['sizeofSV_min'] = vec_size - PTR + max(PTR, n * s)  # the bookkeeping words of amc::vector<T> plus the larger of pointer and slots
     # the other direction, only where the operation would run a throwing element operation inside a noexcept function
     e['nmc_forbidden'] = int(n > 0 and not t_tr(t) and not t_nothrow_move_ctor(t))
     e['nma_forbidden'] = int(n > 0 and not t_tr(t) and not t_nothrow_move(t))
